@@ -30,3 +30,13 @@ Definition decode_json (cc : ccfg) (w : wcfg) (j : json) : dres claims :=
            end
   | _ => DErr
   end.
+
+(** the validating JSON entry points as compositions with validation *)
+Definition validate_and_encode_json (cc : ccfg) (w : wcfg) (c : claims) : option json :=
+  match validate cc c with Ok _ => encode_json w c | _ => None end.
+
+Definition decode_and_validate_json (cc : ccfg) (w : wcfg) (j : json) : dres claims :=
+  match decode_json cc w j with
+  | DOk c => match validate cc c with Ok _ => DOk c | _ => DErr end
+  | other => other
+  end.
